@@ -14,6 +14,7 @@ R12d  inventory: only audited functions touch counted storage.
 from lib import mir, patheff
 from lib.mir import strip, show, canon_atom, linear
 from rules import alloc_common as ac
+from rules import restore_common
 
 A = "allocator::Allocator::"
 ATOM_CREATORS = {A + "new_atom", A + "new_small_number", A + "new_substr", A + "new_concat"}
@@ -148,7 +149,14 @@ def run(ctx):
             ck.ob("R12a", key, ok, f"successful path of {f.path.split('::')[-1]}: {what}", site=f.where(0), detail=desc)
     ck.floor("allocation path classes", n_paths, 25)
 
-    # R12b
+    check_restores(ck, cr, "R12b")
+    ck.rule("R12e", "value-preserving restore: per-verdict accounting of maybe_restore_with_node and kind-matched classification of the preserved node")
+    restore_common.check_maybe_restore(ck, cr, "R12e")
+    restore_common.check_node_status(ck, cr, "R12e")
+
+
+def check_restores(ck, cr, R):
+    """checkpoint / restore field coverage (shared with C04) and the three reporters"""
     tc = cr.fn(A + "transparent_checkpoint")
     rt = cr.fn(A + "restore_transparent_checkpoint")
     rc = cr.fn(A + "restore_checkpoint")
@@ -163,7 +171,7 @@ def run(ctx):
                 for fname, op in zip(rv["agg"][0]["fields"], rv["agg"][1]):
                     fmap[fname] = canon_atom(tc.expr_op(op))
     want_vecs = {"len(self.u8_vec)", "len(self.pair_vec)", "len(self.atom_vec)"}
-    ck.ob("R12b", "transparent_checkpoint|fields", set(fmap.values()) == want_vecs,
+    ck.ob(R,"transparent_checkpoint|fields", set(fmap.values()) == want_vecs,
           "transparent checkpoint records the length of each of the three vectors", site=tc.where(0), detail=fmap)
     efs = ac.effects(rt)
     for fname, vlen in sorted(fmap.items()):
@@ -176,25 +184,25 @@ def run(ctx):
         want = ({f"len(self.{vec})": 1, f"cp.{fname}": -1}, 0)
         ok = len(tr) == 1 and len(ga) == 1 and lin[0] == want and all(
             (e.b, -1 if e.idx == "T" else e.idx) < (tr[0].b, 10 ** 6) or rt.dominates(e.b, tr[0].b) for e in ga)
-        ck.ob("R12b", f"restore_transparent_checkpoint|{vec}", ok,
+        ck.ob(R,f"restore_transparent_checkpoint|{vec}", ok,
               f"ghost counter of {res} += len({vec}) - cp.{fname} exactly once, before {vec}.truncate(cp.{fname})",
               site=rt.where(0), detail={"truncates": [e.what for e in tr], "ghost": [e.what for e in ga]})
     # every effect in the transparent restore is one of those
     extra = [e for e in efs if e.kind not in ("vec-shrink", "ghost-add")]
-    ck.ob("R12b", "restore_transparent_checkpoint|no other effect", not extra and len(efs) == 6,
+    ck.ob(R,"restore_transparent_checkpoint|no other effect", not extra and len(efs) == 6,
           "transparent restore has exactly three truncations and three ghost transfers", site=rt.where(0),
           detail=[e.what for e in efs])
     # restore_checkpoint
     efs = ac.effects(rc)
     sets = {e.field: e.amount_s for e in efs if e.kind == "ghost-set"}
     for g in ("ghost_atoms", "ghost_pairs", "ghost_heap"):
-        ck.ob("R12b", f"restore_checkpoint|{g}", sets.get(g) == f"cp.{g}", f"restore_checkpoint sets {g} from cp.{g}",
+        ck.ob(R,f"restore_checkpoint|{g}", sets.get(g) == f"cp.{g}", f"restore_checkpoint sets {g} from cp.{g}",
               site=rc.where(0), detail=sets)
     calls = rc.calls_to(A + "restore_transparent_checkpoint")
     arg_ok = bool(calls) and "cp.inner" in show(rc.expr_op(calls[0][1]["args"][1]))
-    ck.ob("R12b", "restore_checkpoint|inner", arg_ok, "restore_checkpoint restores the vectors through the transparent restore of cp.inner",
+    ck.ob(R,"restore_checkpoint|inner", arg_ok, "restore_checkpoint restores the vectors through the transparent restore of cp.inner",
           site=rc.where(0), detail=[show(rc.expr_op(t["args"][1])) for _, t in calls])
-    ck.ob("R12b", "restore_checkpoint|no other effect", len(efs) == 3 and all(e.kind == "ghost-set" for e in efs),
+    ck.ob(R,"restore_checkpoint|no other effect", len(efs) == 3 and all(e.kind == "ghost-set" for e in efs),
           "restore_checkpoint has no other effect on counted storage", site=rc.where(0), detail=[e.what for e in efs])
     # checkpoint() literal: each ghost field from the same-named counter
     lit = {}
@@ -205,9 +213,9 @@ def run(ctx):
                 for fname, op in zip(rv["agg"][0]["fields"], rv["agg"][1]):
                     lit[fname] = show(cpf.expr_op(op))
     for g in ("ghost_atoms", "ghost_pairs", "ghost_heap"):
-        ck.ob("R12b", f"checkpoint|{g}", lit.get(g) == f"self.{g}", f"checkpoint() records {g} from self.{g}",
+        ck.ob(R,f"checkpoint|{g}", lit.get(g) == f"self.{g}", f"checkpoint() records {g} from self.{g}",
               site=cpf.where(0), detail=lit)
-    ck.ob("R12b", "checkpoint|inner", "transparent_checkpoint" in lit.get("inner", ""), "checkpoint() records the vector lengths",
+    ck.ob(R,"checkpoint|inner", "transparent_checkpoint" in lit.get("inner", ""), "checkpoint() records the vector lengths",
           site=cpf.where(0), detail=lit)
 
     # R12c reporters
